@@ -979,7 +979,15 @@ def gen_C17(rng, tier):
         fin = rng.random() < 0.6 or (lines and lines[-1] == b"")
         data = eol.join(lines) + (eol if (fin and lines) else b"")
         ops = "".join(rng.choice("rplssssn") for _ in range(rng.randint(1, 14)))
-        groups.append(group(fam, "c17_ops", ["ops %s %s" % (gen.src_tok(data), ops)],
+        chunks = None
+        if rng.random() < 0.35 and data:
+            # the same history over a chunked (and interrupted) reader: the cursor is in bytes, so nothing may change
+            chunks = gen.composition(rng, data, rng.choice(["two", "rand", "bytes" if len(data) < 300 else "rand"]))
+            if rng.random() < 0.5:
+                k = rng.randint(0, len(chunks))
+                chunks = chunks[:k] + ["i"] + chunks[k:]
+            fam += "-chunked"
+        groups.append(group(fam, "c17_ops", ["ops %s %s" % (gen.src_tok(data, chunks), ops)],
                             params={"data": data.hex(), "ops": ops}))
     return groups
 
